@@ -272,6 +272,30 @@ func sweepStalls(base *vm.Plan, calm *vm.Result) []*vm.Plan {
 	return out
 }
 
+// sweepStallsLazy is sweepStalls for histories: the stall (at or just above the
+// deadline) is placed at every scheduler step, goroutines left behind by the
+// timed-out call are not drained but interleaved with the following operations
+// under a tape derived from the step number.
+func sweepStallsLazy(base *vm.Plan, calm *vm.Result) []*vm.Plan {
+	var md int64 = 2e6
+	for _, op := range base.Ops {
+		if op.Lim != nil && op.Lim.MaxDurNs > 0 {
+			md = op.Lim.MaxDurNs
+		}
+	}
+	var out []*vm.Plan
+	for n := 1; n <= calm.Steps+1; n++ {
+		q := base.Clone()
+		q.Faults = []sched.Fault{{Step: n, Kind: "stall", D: md + int64(n%2)}}
+		q.Lazy = true
+		tr := rand.New(rand.NewSource(int64(n)*7919 + int64(base.Run)))
+		q.Tape = randTape(tr, 48)
+		q.Note = fmt.Sprintf("lazy sweep step %d/%d", n, calm.Steps+1)
+		out = append(out, q)
+	}
+	return out
+}
+
 // genC11Catalogue is the fixed catalogue for the fault-enumeration tier: one
 // small program per outcome class and shape, calm schedule (the sweep adds the stall).
 func genC11Catalogue(r *rand.Rand, run int, tier string) *vm.Plan {
